@@ -1,6 +1,7 @@
 //! Verification harness for cod-technologies/sqldatetime (property-based testing + fuzzing).
 pub mod adapter;
 pub mod engine;
+pub mod fuzz_entry;
 pub mod gen;
 pub mod model {
     pub mod cal;
